@@ -22,7 +22,7 @@ class Validator_validate:
 
 
 def _validate_contract(cls, proper=False):
-    @contract(M + cls.__name__ + '.validate', properties=['C08'], raises=[bv.ValidationError])
+    @contract(M + cls.__name__ + '.validate', properties=['C08', 'C05', 'C06', 'C04', 'C13'], raises=[bv.ValidationError])
     class _C:
         params = {'self': Obj(cls, proper=proper), 'val': AnyVal()}
 
